@@ -460,6 +460,18 @@ def r_forget(ctx):
                 else:
                     res.fail(owner.path(), "bypasses-move_into/%s" % arm_name(tt), "the bytes of a user value are copied out directly instead of through AnyValueSizeless::move_into: "
                              "overrides (lazy clones, removal handles) are skipped, the source is duplicated bitwise", span=span_of_effect(c))
+    # lazy-clone sources derived from a vector exist only for Cloneable constraint sets (a non-Cloneable vector has a no-op clone function)
+    for im in fx.impls_of("any_value::AnyValueCloneable"):
+        sp = im["self_ty"].get("path")
+        if sp in ("any_value::lazy_clone::LazyClone",):
+            continue
+        res.inst(sample={"cloneable_impl_for": im["self_ty"].get("s"), "where": im.get("where")})
+        if any("Cloneable" in w for w in im.get("where", [])):
+            res.ok()
+        else:
+            res.fail(sp or im["self_ty"].get("s"), "cloneable-bound", "`impl AnyValueCloneable for %s` is not restricted to Cloneable constraint sets: lazy clones of values from a "
+                     "non-Cloneable vector clone nothing and leave the destination uninitialised" % im["self_ty"].get("s"),
+                     span="%s:%s" % (im["span"]["file"], im["span"]["line"]))
     # wrapper drop-glue facts
     expect_no_drop = ["element::ElementRef", "element::ElementMut", "any_value::lazy_clone::LazyClone", "any_value::raw::AnyValueRaw",
                       "any_value::raw::AnyValueTypelessRaw", "any_value::raw::AnyValueSizelessRaw"]
